@@ -676,7 +676,7 @@ def run(ctx, anchors=None):
                 reach = cfg.reachable_from(fail_succ, removed_blocks=wblocks - {fail_succ}) if fail_succ not in wblocks else set()
                 reads = []
                 for m in f.nodes():
-                    if m["k"] == "call" and m is not n and m.get("n") in ("strlen", "strdup", "strcmp", "strncmp", "printf", "sscanf", "atoi") and any(same_buf(a) for a in m["args"] if a):
+                    if m is not n and m["k"] in ("call", "mcall", "opcall", "ctor") and m.get("n") not in ("fgets", "memset", "snprintf") and any(same_buf(a) for a in m.get("args", []) if a):
                         p = cfg.position(m)
                         if p and p[0] in reach:
                             reads.append(m)
